@@ -73,7 +73,10 @@ class Real:
         self.pool = []
         r0 = rand_resid(rng, self.m, self.pool)
         self.pool.append(r0)
-        self.model = Model(self.cap, x0, r0, -1e20 * np.ones(self.n), 1e20 * np.ones(self.n), [], 1, h=self.h)
+        # the starting residual may already be the mean of several samples (nsamples callback > 1 at x0, or an averaged incumbent
+        # carried over a hard restart): its sample count must be kept (seeded change C17_12 reset it to 1)
+        self.r0ns = int(rng.integers(1, 4))
+        self.model = Model(self.cap, x0, r0, -1e20 * np.ones(self.n), 1e20 * np.ones(self.n), [], self.r0ns, h=self.h)
         self.coords = {0: np.zeros(self.n)}      # pid -> relative coordinates (points[k])
         self.abs_saved = {}                      # pid -> absolute coordinates handed to save_point
         self.next_pid = 1
@@ -142,7 +145,7 @@ def gen_sequence(dfols, rng, length, with_h):
     md = R.model
     lines, real, descr = [], [], []
     r0 = md.fval_v[0, :]
-    lines.append("minit %d 0 %s 1 %d %s" % (R.cap, fkey(md.objval[0]), int(md.eval_num[0]), " ".join(fbits_raw(v) for v in r0)))
+    lines.append("minit %d 0 %s %d %d %s" % (R.cap, fkey(md.objval[0]), R.r0ns, int(md.eval_num[0]), " ".join(fbits_raw(v) for v in r0)))
     real.append("ok " + R.digest())
     descr.append(("init", R.n, R.m, R.cap, with_h))
     en = 1
@@ -354,7 +357,7 @@ def search_one(dfols, rng, length, with_h):
     R = Real(dfols, rng, with_h)
     md = R.model
     # shadow: per slot -> dict(label, samples(list of arrays), x(relative coords))
-    shadow = [{"label": 1, "samples": [md.fval_v[0, :].copy()], "x": np.zeros(R.n)}]
+    shadow = [{"label": 1, "samples": [md.fval_v[0, :].copy() for _ in range(R.r0ns)], "x": np.zeros(R.n)}]
     kopt_guard_ok = True      # False once the incumbent's row was overwritten by a worse point (or kopt update disallowed)
     best_offered_saved = None
     saved_shadow = [None]     # what was handed to the last ACCEPTED save_point: (resid copy, ns, label)
